@@ -1,4 +1,4 @@
-import Hannibal.Monitor.Basic
+import Hannibal.Monitor.Handles
 /-
   C07 — restart keeps identity and mailbox and yields a freshly started incarnation.
 
@@ -46,12 +46,30 @@ structure C07oSt where
   accepted : Nat                     -- restart requests accepted so far
   expect : List (Nat × Nat)          -- client message ↦ restart requests accepted before it was submitted
   failure : Bool
+  hold : HoldSt
+  quiet : Bool                       -- stop issued / final callbacks begun / terminated
+  timers : List (Nat × TimerKind)
   deriving Repr, DecidableEq
 
 def monC07o (c : MonCtx) : Mon C07oSt where
-  init := { inc := 0, accepted := 0, expect := [], failure := false }
+  init := { inc := 0, accepted := 0, expect := [], failure := false, hold := HoldSt.init c.h0 c.k0, quiet := false,
+            timers := [] }
   step st l :=
     let restartable := !c.cfg.stream && c.cfg.strat != .non
+    -- a non-restartable spawn ignores the request altogether: its repeating timers keep going
+    let badIgnore := !restartable && !c.cfg.stream && st.accepted > 0 && !st.quiet && !st.failure
+      && st.hold.strongHeld && (match l with
+        | .timerEnd t => (match lookup t st.timers with
+            | some .interval | some .intervalWith => true
+            | _ => false)
+        | _ => false)
+    if badIgnore then none else
+    let st := { st with hold := st.hold.step l }
+    let st := (match l with
+      | .ctxTimer t k _ => { st with timers := (t, k) :: st.timers }
+      | .stopReq _ _ | .ctxStop _ | .cbBegin .stopped | .begin _ _ .halt | .begin _ _ .tryHalt
+      | .begin _ _ .consume => { st with quiet := true }
+      | l => if l.terminates then { st with quiet := true } else st)
     match l with
     | .restartReq _ true | .ctxRestart true => some { st with accepted := st.accepted + 1 }
     | .begin _ _ k =>
